@@ -12,7 +12,7 @@ Case layout (one `cfg` line, then operations):
 cache ops   : set k= v= ttl8=   | get k= | has k= | del k=
 gated ops   : cset id= k= v= ttl8= | cget id= k= | chas id= k=  (the call runs up to its clock read and parks there)
               crel id=  (the parked call reads the clock now and runs to its end)
-plugin ops  : resp m= u= pp=<a:1,b:2|%e> id= st= body= tag=<enc|%n> ra=<enc|%n>   | req m= u= pp=
+plugin ops  : resp m= u= pp=<a:1,b:2|%e> id= st= body= tag=<enc|%n> ra=<enc|%n> [hn=<arriving header name>] [via=wire]   | req m= u= pp=
 clock ops   : adv d=<ns> (due sleepers run) | skip d=<ns> (nobody runs) | fire i=<index among pending> | probe
 -/
 open LunarVerif LunarVerif.Proto LunarVerif.C12
@@ -21,7 +21,7 @@ inductive Mode where
   | none
   | cache (cfg : Cfg) (s : IState String String) (ids : List (Nat × Nat))
   | caching (cfg : CCfg) (paths : List (Bool × String)) (c : CCache String)
-  | throttle (cfg : TCfg) (c : TCache String)
+  | throttle (cfg : TCfg) (hdr : String) (c : TCache String)
   | shared (rems : List (CCfg × List (Bool × String))) (c : SCache String)
 
 def ttlUnit : Int := 125000000
@@ -87,8 +87,8 @@ def parseCfg (ws : List String) : Option Mode :=
     let ty ← (if ty == "rel" then some RaType.rel else if ty == "abs" then some RaType.abs
               else if ty == "undef" then some RaType.undef else none)
     let sts ← (kv ws "statuses").bind parseNatList
-    let _ ← kv ws "hdr"
-    pure (.throttle ⟨ty, sts⟩ (Cache.init t0 false 0))
+    let hdr ← kvS ws "hdr"
+    pure (.throttle ⟨ty, sts⟩ hdr (Cache.init t0 false 0))
   | _ => none
 
 /-- Clock operations shared by all modes. -/
@@ -141,10 +141,15 @@ def parsePOp (paths : List (Bool × String)) (hdrName : String) (ws : List Strin
       let body ← kvS ws "body"
       let tag ← (kv ws "tag").map optDec
       let ra ← (kv ws "ra").map optDec
+      -- `hn=`: the name under which the header arrives (default: the configured one); `via=wire`: the header block
+      -- goes through utils.ParseHeaders, which lower-cases names
+      let hn := (kvS ws "hn").getD hdrName
+      let arriving := if kv ws "via" == some "wire" then hn.toLower else hn
       let hdrs := (match ra with | some v => [(hdrName, v)] | none => [])
                   ++ (match tag with | some v => [("X-Tag", v)] | none => [])
       pure (.resp m u (selectParams paths pp)
-              { id := id, status := st, body := body, tag := tag, ra := ra, raNs := ra.bind parseDecNs }
+              { id := id, status := st, body := body, tag := tag, ra := ra, raNs := ra.bind parseDecNs,
+                raExact := arriving == hdrName, raDate := ra.bind parseHttpDate }
               body.utf8ByteSize (calcSize m u id body hdrs))
     | "req" :: ws => do
       let m ← kvS ws "m"
@@ -299,9 +304,9 @@ def runStep (s : Mode) (line : String) : Mode × String :=
       match parsePOp paths "Retry-After" ws with
       | some op => (.caching cfg paths (cstep cfg c op).1, fmtPOut (cstep cfg c op).2)
       | none => (s, "bad-op")
-    | .throttle cfg c =>
-      match parsePOp [] "" ws with
-      | some op => (.throttle cfg (tstep absTtlFloat cfg c op).1, fmtPOut (tstep absTtlFloat cfg c op).2)
+    | .throttle cfg hdr c =>
+      match parsePOp [] hdr ws with
+      | some op => (.throttle cfg hdr (tstep absTtlFloat cfg c op).1, fmtPOut (tstep absTtlFloat cfg c op).2)
       | none => (s, "bad-op")
     | .shared rems c =>
       match parseSOp rems ws with
@@ -370,7 +375,7 @@ inductive JMode where
   | none
   | cache (j : CacheJ)
   | caching (cfg : CCfg) (paths : List (Bool × String)) (hist : List (PRec String))
-  | throttle (cfg : TCfg) (hist : List (PRec String))
+  | throttle (cfg : TCfg) (hdr : String) (hist : List (PRec String))
   | shared (rems : List (CCfg × List (Bool × String))) (hist : List (SRec String))
 
 structure JudgeSt where
@@ -391,7 +396,7 @@ def judgeStep (s : JudgeSt) (op out : String) : JudgeSt :=
     match s.mode, parseCfg ws with
     | .none, some (.cache cfg st _) => { s with mode := .cache { cfg := cfg }, now := st.c.now }
     | .none, some (.caching cfg paths c) => { s with mode := .caching cfg paths [], now := c.now }
-    | .none, some (.throttle cfg c) => { s with mode := .throttle cfg [], now := c.now }
+    | .none, some (.throttle cfg hdr c) => { s with mode := .throttle cfg hdr [], now := c.now }
     | .none, some (.shared rems c) => { s with mode := .shared rems [], now := c.now }
     | _, _ => if out == "bad-op" then s else { s with bad := some "cfg-accepted-but-unparsable" }
   | ws =>
@@ -454,12 +459,12 @@ def judgeStep (s : JudgeSt) (op out : String) : JudgeSt :=
         match parsePOut pop ows with
         | some o => { s with mode := .caching cfg paths (⟨s.now, pop, o⟩ :: hist), now := s.now + dt }
         | none => { s with bad := some ("unparsable-output:" ++ pctEnc out) }
-    | .throttle cfg hist =>
-      match parsePOp [] "" ws with
+    | .throttle cfg hdr hist =>
+      match parsePOp [] hdr ws with
       | none => if out == "bad-op" then s else { s with bad := some "unparsable-op-answered" }
       | some pop =>
         match parsePOut pop ows with
-        | some o => { s with mode := .throttle cfg (⟨s.now, pop, o⟩ :: hist), now := s.now + dt }
+        | some o => { s with mode := .throttle cfg hdr (⟨s.now, pop, o⟩ :: hist), now := s.now + dt }
         | none => { s with bad := some ("unparsable-output:" ++ pctEnc out) }
     | .shared rems hist =>
       match parseSOp rems ws with
@@ -504,7 +509,7 @@ def judgeFinish (s : JudgeSt) : String :=
     | .caching cfg _ hist =>
       if choldsRev cfg hist then "ok"
       else s!"fail - caching: replay-not-justified-or-size-clause at {describe (firstBad (cRecOk cfg) (·.t) hist)}"
-    | .throttle cfg hist =>
+    | .throttle cfg _ hist =>
       if tholdsRev cfg hist then "ok"
       else s!"fail - throttling: replay-not-justified-or-wrong-retry-after at {describe (firstBad (tRecOk cfg) (·.t) hist)}"
     | .shared _ hist =>
